@@ -7,6 +7,7 @@ VARX = r'^std::variant<std::chrono::time_point<.*>, cocls::promise<void> >::vari
 VAR_NAMES = dict(var_from_promise=VARX + r'cocls::promise<void>, void, void, cocls::promise<void>, void>\(cocls::promise<void>&&\)$',
                  var_from_tp_rv=VARX + r'std::chrono::time_point<[^&]*, void, void, std::chrono::time_point<.*, void>\(std::chrono::time_point<.*>&&\)$',
                  var_from_tp_lv=VARX + r'std::chrono::time_point<.*>&, void, void, std::chrono::time_point<.*, void>\(std::chrono::time_point<.*>&\)$')
+CAST_RX = r'std::chrono::duration_cast<std::chrono::duration<long, std::ratio<1l, 1000000000l> >, long, std::ratio<1l, 1000l> >\('
 T_SPB = {'SPB': 'cocls::suspend_point<bool>', 'SP': 'cocls::suspend_point<void>', 'EPTR': 'std::__exception_ptr::exception_ptr'}
 T_FUT = {'FUT': 'cocls::future<void>'}
 RX = dict(
@@ -35,12 +36,20 @@ BOUNDARY = [r'^std::vector<cocls::scheduler::SchItem', r'^void std::push_heap<',
 LIBS = ['rt_core.c', 'rt_atomic_seq.c', 'model_mutex.c']     # lib/model_vec_heap.c and lib/model_promise.c are included by the spec (they need its macros)
 SPEC = ['C12/sch_spec.h', 'C12/h_sch.c']
 HEAP = dict(sch_compare_item=RX['compare_item'], sch_item_dtor=RX['item_dtor'])
+DRIVE_SCRIPTS = ['SSCGC', 'SSSCC', 'SSGGG', 'SCCGS', 'SGSCG', 'SSCCG']   # incl. cancel of a non-top entry + expiry + repeated cancel, duplicate ids, equal deadlines
+DRIVE_REPLAY = {'SSCGC': dict(replay=dict(src='c12_remove_empty.cpp', mode='remove_empty')), 'SSSCC': dict(replay=dict(src='c12_cancel_dup.cpp', mode='cancel_dup'))}
+UC = dict(compare_item='cocls::scheduler::compare_item(cocls::scheduler::SchItem const&, cocls::scheduler::SchItem const&)', pop_item='cocls::scheduler::pop_item()',
+          get_expired_lk='cocls::scheduler::get_expired_lk(std::chrono::system_clock::time_point)', get_expired='cocls::scheduler::get_expired(std::chrono::system_clock::time_point)',
+          remove='cocls::scheduler::remove(void const*)', schedule='cocls::scheduler::schedule(void const*, cocls::promise<void>, std::chrono::system_clock::time_point)',
+          cancel_e='cocls::scheduler::cancel(void const*, std::exception_ptr)', cancel='cocls::scheduler::cancel(void const*)',
+          sleep_until='cocls::scheduler::sleep_until(std::chrono::system_clock::time_point, void const*)', sleep_for='cocls::scheduler::sleep_for<long, std::milli>(std::chrono::milliseconds, void const*)',
+          dtor='cocls::scheduler::~scheduler()', interval_stop_cb='cocls::scheduler::interval<long, std::milli>(...)::{lambda()#1}::operator()() const  [the stop callback]')
 def unit(name, alias, roots, names=None, types=None, boundary=(), defines=(), **kw):
     nm = {alias: RX[name] if name in RX else roots[0]}
     nm.update(names or {})
     t = dict(TYPES); t.update(types or {})
     d = dict(name=name, driver='c12_sched.cpp', roots=roots, names=nm, types=t, boundary=BOUNDARY + list(boundary), lib=LIBS, spec=SPEC,
-             harness='h_' + name, enforce=alias, defines=['CV_HAS_%s_U 1' % alias] + list(defines), under_contract=[roots[0].strip('^$').replace('\\', '')])
+             harness='h_' + name, enforce=alias, defines=['CV_HAS_%s_U 1' % alias] + list(defines), under_contract=[UC.get(name, name)])
     d.update(kw)
     return d
 
@@ -49,7 +58,8 @@ UNITS = [
     unit('pop_item', 'sch_pop_item', [RX['pop_item'], RX['item_dtor']], names=HEAP),
     unit('get_expired_lk', 'sch_get_expired_lk', [RX['get_expired_lk'], RX['item_dtor']], names=HEAP, names_opt=VAR_NAMES, boundary=[VARX], types=T_EXPIRED, loop_contracts=True, object_bits=9),
     unit('get_expired', 'sch_get_expired', [RX['get_expired'], RX['item_dtor']], names=dict(HEAP, sch_get_expired_lk=RX['get_expired_lk']), names_opt=VAR_NAMES, boundary=[VARX], types=T_EXPIRED, loop_contracts=True, object_bits=9),
-    unit('remove', 'sch_remove', [RX['remove'], RX['remove_pred'], RX['item_dtor']], names=dict(HEAP, vec_find_if=RX['find_if'], vec_find_pred=RX['remove_pred']), loop_contracts=True, object_bits=10),
+    unit('remove', 'sch_remove', [RX['remove'], RX['remove_pred'], RX['item_dtor']], names=dict(HEAP, vec_find_if=RX['find_if'], vec_find_pred=RX['remove_pred']), loop_contracts=True, object_bits=10,
+         replay=dict(src='c12_remove_replay.cpp', mode='remove')),
     unit('schedule', 'sch_schedule', [RX['schedule'], RX['item_move'], RX['item_dtor']], names=dict(HEAP, sch_item_move=RX['item_move'])),
     unit('cancel_e', 'sch_cancel_e', [RX['cancel_e']], names={'sch_remove': RX['remove']}, names_opt={'pr_call_exc': RX['pr_call_exc'], 'sp_dtor': RX['sp_dtor']},
          types=dict(T_SPB), boundary=[RX['remove']]),
@@ -57,6 +67,42 @@ UNITS = [
          globals={'AWAIT_CANCELED_TI': '_ZTIN5cocls24await_canceled_exceptionE'}, defines=['C12_EXC_PRIMS 1']),
     unit('sleep_until', 'sch_sleep_until', [RX['sleep_until']], names={'sch_schedule': RX['schedule']}, names_opt={'pr_ctor_future': RX['pr_ctor_future']},
          types=dict(T_FUT), boundary=[RX['schedule']], defines=['PR_FUTURE_T FUT']),
-    unit('sleep_for', 'sch_sleep_for', [RX['sleep_for']], names={'sch_sleep_until': RX['sleep_until']}, types=dict(T_FUT), boundary=[RX['sleep_until'], r'^std::chrono::_V2::system_clock::now\(\)$']),
+    unit('sleep_for', 'sch_sleep_for', [RX['sleep_for']], names={'sch_sleep_until': RX['sleep_until'], 'chr_cast_ms_ns': CAST_RX}, types=dict(T_FUT, DUR_MS='std::chrono::duration<long, std::ratio<1L, 1000L> >'),
+         boundary=[RX['sleep_until'], r'^std::chrono::_V2::system_clock::now\(\)$', CAST_RX]),
+    unit('dtor', 'sch_dtor', [RX['dtor'], RX['item_dtor']], names={'sch_item_dtor': RX['item_dtor']},
+         names_opt=dict(opt_has_value=r'^std::optional<cocls::scheduler::GlobState>::has_value\(\) const$', opt_arrow=r'^std::optional<cocls::scheduler::GlobState>::operator->\(\)$',
+                        opt_dtor=r'^std::optional<cocls::scheduler::GlobState>::~optional\(\)$', ss_request_stop=r'^std::stop_source::request_stop\(\) const$', fut_wait=r'^cocls::future<void>::wait\(\)$'),
+         types=dict(T_FUT, OPTGS='std::optional<cocls::scheduler::GlobState>', GLOBST='cocls::scheduler::GlobState', STOPSRC='std::stop_source'),
+         boundary=[r'^std::optional<cocls::scheduler::GlobState>::', r'^std::stop_source::request_stop', r'^cocls::future<void>::wait\(\)$']),
+    unit('interval_stop_cb', 'sch_interval_cb', [RX['interval_cb'], RX['remove_pred'], RX['item_dtor']],
+         names=dict(HEAP, sch_interval_cb=RX['interval_cb'], sch_remove=RX['remove'], vec_find_if=RX['find_if'], vec_find_pred=RX['remove_pred']),
+         names_opt={'pr_call_exc': RX['pr_call_exc'], 'sp_dtor': RX['sp_dtor']}, types=dict(T_SPB), enforce=None, loop_contracts=True, object_bits=10,
+         defines=['C12_EXC_PRIMS 1', 'CV_HAS_sch_interval_cb_U 1'], harness='h_interval_stop_cb',
+         replay=dict(src='c12_interval_replay.cpp', mode='interval_stop', timeout=60)),
+] + [
+    unit('drive_manual_' + sname, 'sch_drive', [RX['schedule'], RX['cancel_e'], RX['get_expired'], RX['remove_pred'], RX['item_move'], RX['item_dtor']],
+         names=dict(HEAP, sch_drive=RX['schedule'], sch_schedule=RX['schedule'], sch_cancel_e=RX['cancel_e'], sch_get_expired=RX['get_expired'], sch_item_move=RX['item_move'],
+                    vec_find_if=RX['find_if'], vec_find_pred=RX['remove_pred']),
+         names_opt=dict(VAR_NAMES, pr_call_exc=RX['pr_call_exc'], sp_dtor=RX['sp_dtor']), types=dict(T_SPB, **T_EXPIRED), boundary=[VARX], enforce=None,
+         spec=['C12/sch_spec.h', 'C12/h_drive.c'], harness='h_drive', defines=['C12_CONCRETE_VEC 1', 'CVEC_CAP 3', 'DRV_SCRIPT ' + ','.join(str('SCG'.index(c)) for c in sname)],
+         unwind=6, object_bits=12, kind='bounded',
+         bounded='manual mode, scripted history %s (S schedule, C cancel, G get_expired) with symbolic time points / identifiers (2) / now; <= 3 sleeps; concrete vector with textbook heap algorithms' % sname,
+         timeout=900, under_contract=[], **DRIVE_REPLAY.get(sname, {}))
+    for sname in DRIVE_SCRIPTS
 ]
-META = {}
+META = dict(
+    level='proof',
+    level_text='Every function of scheduler.h that touches the scheduled heap is verified against a contract taken from the property statement, for every size and content of the heap (no bound on the number of entries, time points, identifiers or tombstones), with the two loops (get_expired_lk, remove) under loop contracts: get_expired_lk/get_expired(now): a returned promise is live, comes from an entry with time point <= now, and no pending sleep that remains is earlier; a returned time is the earliest time point, belongs to a pending sleep, and nothing pending is due (max() when empty); every pending sleep is either still pending and unaltered or is the one returned; nothing is resolved or dropped. remove(id): a live result was taken from an entry carrying id and exactly that entry is consumed; an empty result means no pending sleep carries id and nothing changed; every vector access is in range; one critical section, lock released. schedule: one entry more, the new entry unaltered, the first entry still the earliest, the worker notified whenever the heap was empty or the new entry is strictly earlier than the first one, every old entry kept. cancel(id,e) = one remove(id) + resolution of exactly the returned promise with exactly e, true/false accordingly, the awaiting coroutine handed to the caller; cancel(id) forwards with an exception whose dynamic type is await_canceled_exception; sleep_until/sleep_for schedule the promise of the returned future exactly once for (tp | one clock reading + duration, id); ~scheduler stops and joins a started worker first and then destroys the vector once, which drops (= cancels, C01) every pending promise; compare_item/pop_item as leaves. The stop-callback lambda of interval() is checked with everything it calls translated (lock discipline of std::mutex, no exception, other sleeps untouched).',
+    level_note='"For every entry" is proved for one arbitrary-but-fixed tracked entry that the vector model follows through every permutation (quantifier-free). Trusted: the element-view model of std::vector<SchItem> and of std::push_heap/pop_heap/find_if (lib/model_vec_heap.c) - the heap algorithms are specified by their effect (permutation + "comp(moved/first, x) is false for every x", evaluated with the real translated compare_item) and are assumed to keep the std heap invariant that their own precondition demands; the abstract promise<void> (one owner word; resolution/drop recorded, future.h internals not translated); std::variant converting constructors; std::mutex via pthread primitives (sequential reading: every public operation is one critical section, cancel = one critical section + a resolution outside the lock); condition_variable::notify_all only counted. Each public operation is verified for one thread; interleavings reduce to sequences of critical sections (lock-based linearisability, argued not machine-checked). NOT covered: worker_coro (coroutine body: that it waits until exactly the time get_expired_lk returns and resolves what it returns is by reading), start()/start_in/thread-pool mode, the body of interval() other than its stop callback, wall-clock accuracy, std::stop_token internals, history-level composition (a sleep completes exactly once over a whole run: the per-operation contracts are the inductive steps, the induction over histories is not machine-checked). A reversed comparator is caught by compare_item and schedule only (the consumer units then prune instead of failing).',
+    technique='CBMC 6.11 code contracts (requires/ensures/assigns) and loop contracts enforced via goto-instrument --dfcc on the C translation of clang IR of scheduler.h; std containers/algorithms, promise<void>, variant, mutex, condition_variable as operational models with precondition obligations; forwarder units with recording stubs for cancel/sleep_until/sleep_for/destructor',
+    trusted_base=['assumed contract: std::vector<scheduler::SchItem> + std::push_heap/pop_heap/find_if, element view with a tracked element (lib/model_vec_heap.c)',
+                  'assumed contract: cocls::promise<void> = one owner word; move/bool/destructor/operator()(exception_ptr) record completions in ghost state (lib/model_promise.c)',
+                  'assumed contract: std::variant<time_point, promise<void>> converting constructors (lib/model_variant_expired.c)',
+                  'primitive: std::mutex = pthread_mutex_lock/unlock with "not locked again by its holder" obligation (lib/model_mutex.c); condition_variable::notify_all counted (specs/C12/sch_spec.h)',
+                  'libstdc++ make_exception_ptr primitives (__cxa_init_primary_exception, exception_ptr(void*)) as two-line stubs (specs/C12/sch_spec.h)',
+                  'abstract callees in forwarder units: optional<GlobState>, stop_source::request_stop, future<void>::wait, system_clock::now, duration_cast<ns>(ms), suspend_point<void> destructor'],
+    assumptions=['fewer than 2^62 scheduled entries (size counter never wraps)',
+                 'the scheduled vector is manipulated only through the modelled operations (operator[], empty, begin/end as algorithm arguments, push_back+push_heap, pop_heap+pop_back, find_if); time points of stored entries are never written (true of scheduler.h by inspection of the translated units: every access goes through the model)',
+                 'each public operation runs as one critical section of _mx; results for concurrent use follow by lock-based linearisability (not machine-checked)',
+                 'promise<void> is a linear resource: a live owner word is held by exactly one promise object (property C01)'],
+    explanation='see level_text / level_note')
